@@ -47,7 +47,8 @@ pub fn run(run: &'static Run) {
     let schemes: Vec<&str> = vec!["ssh://", "git://", "http://", "https://", "file://", "foo://", "SSH://", "ssh+git://"];
     let mut users: Vec<&str> = vec!["", "u@", "u%40@", "-u@", "u:pw@", "u:@", ":pw@", "@"];
     let mut hosts: Vec<&str> = vec!["h", "[::1]", "-h", "", "H.example", "h."];
-    let mut ports: Vec<&str> = vec!["", ":22", ":0", ":65535", ":80", ":443", ":"];
+    // every scheme's default port (ssh 22, git 9418, http 80, https 443) with both neighbours, the extremes, and an empty port
+    let mut ports: Vec<&str> = vec!["", ":0", ":21", ":22", ":23", ":79", ":80", ":81", ":442", ":443", ":444", ":9417", ":9418", ":9419", ":65535", ":"];
     let mut paths: Vec<&str> =
         vec!["/p", "p", "~u/p", "/~u/p", "/", "", "/a b", "/a%20b", "/a:b", "a:b", "/p/", "//p", "/p?q=1", "/p#f", "/é", "/-p", "-p"];
     let wraps: Vec<(&str, &str)> = if thorough { vec![("", ""), (" ", ""), ("", "\n"), ("", " ")] } else { vec![("", "")] };
